@@ -121,7 +121,7 @@ def accumulateInfo (a : SInfo) (own : SizeK) : SInfo :=
     | .known n => .known n
     | _ => match a.shape with
       | .const l => .atMost (prod l)
-      | _ => match own with | .known n => .atMost n | .atMost n => .atMost n | .any => .any⟩
+      | _ => match own with | .known n => .atMost n | .atMost n => .atMost n | .any => .any | .knownB _ b => .atMost b⟩
 
 def transferAccumulate (i : SInfo) : Option SInfo := some (accumulateInfo i.seen i.size)
 
@@ -277,7 +277,7 @@ def broadcastShapeK3 (a b c : ShapeK) : Option ShapeK := (broadcastShapeK a b).b
 def whereInfo (B : ShapeK) (o : SizeK) : SInfo :=
   ⟨B, match B with
     | .const l => .known (prod l)
-    | _ => match o with | .known n => .known (3 * n) | .atMost n => .atMost (3 * n) | .any => .any⟩
+    | _ => match o with | .known n => .known (3 * n) | .atMost n => .atMost (3 * n) | _ => .any⟩
 
 def transferWhere (i j k : SInfo) : Option SInfo :=
   (broadcastShapeK3 i.seen.shape j.seen.shape k.seen.shape).map (fun B =>
@@ -314,11 +314,15 @@ def matmulShapeK (a b : ShapeK) : Option ShapeK :=
   | .fixed la, .fixed lb => if la ≥ 2 ∧ lb ≥ 2 then some (.fixedDim (max la lb)) else none
   | la, lb => some (bcastLenK la lb)
 
-/-- two operands of constant shape: fixed_size is the product of the constant result shape while bounded_size stays the
-    product of the operands' bounds (view/matmul.hpp:507-543) — a pair of different numbers `SInfo` cannot hold: not modelled -/
+/-- bounded_size = product of the operands' bounds; two operands of constant shape: fixed_size is the product of the constant
+    result shape while bounded_size STAYS the product of the operands' sizes (view/matmul.hpp:507-543) -/
+def matmulSize (i j : SInfo) : SizeK :=
+  match i.bsz, j.bsz with | some x, some y => .atMost (x * y) | _, _ => .any
+
 def transferMatmul (i j : SInfo) : Option SInfo :=
-  if i.seen.shape.isConst && j.seen.shape.isConst then none
-  else (matmulShapeK i.seen.shape j.seen.shape).map (fun d =>
-    ⟨d, match i.bsz, j.bsz with | some x, some y => .atMost (x * y) | _, _ => .any⟩)
+  match i.seen.shape, j.seen.shape with
+  | .const va, .const vb =>
+    (refMatmul va vb).map (fun t => ⟨.const t, match matmulSize i j with | .atMost b => .knownB (prod t) b | _ => .known (prod t)⟩)
+  | a, b => (matmulShapeK a b).map (fun d => ⟨d, matmulSize i j⟩)
 
 end NmVerif.Static
